@@ -360,19 +360,21 @@ fn tiny_sched(prop: &'static str) -> SchedCampaign {
     }
 }
 
-/// Campaigns used under Miri: component drivers, plus tiny whole-scheduler blocks.
-pub fn miri_by_name(prop: &str) -> Option<Box<dyn crate::campaign::Campaign>> {
+/// Campaigns used under Miri: component drivers in the quick tier; tiny whole-scheduler blocks
+/// (minutes each under the interpreter) only in the thorough tier.
+pub fn miri_by_name(prop: &str, tier: &str) -> Option<Box<dyn crate::campaign::Campaign>> {
     use crate::campaign::Composite;
     use crate::components as comp;
+    let thorough = tier == "miri-thorough";
     match prop {
         "C15" => Some(Box::new(comp::C15)),
         "C16" => Some(Box::new(comp::C16)),
-        "C17" if std::env::var("VERIF_MIRI_COMPONENT_ONLY").is_ok() => Some(Box::new(comp::C17)),
-        "C17" => Some(Box::new(Composite { prop: "C17", parts: vec![(8, Box::new(comp::C17)), (2, Box::new(tiny_sched("C17")))] })),
+        "C17" if thorough => Some(Box::new(Composite { prop: "C17", parts: vec![(9, Box::new(comp::C17)), (1, Box::new(tiny_sched("C17")))] })),
+        "C17" => Some(Box::new(comp::C17)),
         "C07" => Some(Box::new(comp::C07History)),
-        "C05" => Some(Box::new(tiny_sched("C05"))),
-        "C01" => Some(Box::new(tiny_sched("C01"))),
-        "C02" => Some(Box::new(tiny_sched("C02"))),
+        "C05" if thorough => Some(Box::new(tiny_sched("C05"))),
+        "C01" if thorough => Some(Box::new(tiny_sched("C01"))),
+        "C02" if thorough => Some(Box::new(tiny_sched("C02"))),
         _ => None,
     }
 }
